@@ -1944,6 +1944,77 @@ class QuantifiedConditional(LogicalBinaryOperator, ABC):
     that has a quantified variable and a condition on the values of that variable.
     """
 
+    @cached_property
+    def condition_unique_variable_ids(self) -> List[int]:
+        # a predicate / symbolic function is a variable whose value is computed from its arguments: its value for one
+        # value of the quantified variable must not be kept for the next one
+        return [
+            v.id_
+            for v in self.condition._unique_variables_.difference(
+                self.left._unique_variables_
+            )
+            if not v.value._should_be_instantiated_
+        ]
+
+    def _bindings_of_the_other_variables_(
+        self, condition_result: OperationResult
+    ) -> Dict[int, HashedValue]:
+        """
+        :param condition_result: A result of the condition.
+        :return: The bindings of the variables of the condition apart from the quantified one.
+        """
+        return {
+            k: v
+            for k, v in condition_result.bindings.items()
+            if k in self.condition_unique_variable_ids
+        }
+
+    def _other_variables_are_bound_in_(self, sources: Dict[int, HashedValue]) -> bool:
+        """
+        :param sources: The bindings the operator is evaluated under.
+        :return: True if every variable of the condition, apart from the quantified one, has a value already: the
+         operator then has one truth value for these bindings, also when that value is false.
+        """
+        return all(
+            variable.id_ in sources
+            for variable in self.condition._unique_variables_.difference(
+                self.left._unique_variables_
+            )
+            if not isinstance(variable.value, Literal)
+            and not variable.value._should_be_instantiated_
+        )
+
+    def _false_results_(
+        self,
+        sources: Dict[int, HashedValue],
+        failing: List[Dict[int, HashedValue]],
+        holding: List[Dict[int, HashedValue]],
+    ) -> Iterable[OperationResult]:
+        """
+        The quantified condition has a truth value for every binding of the other variables, the operators above
+        (or_ in its else-if form, not_, the alternatives of a rule) need the false ones as well.
+
+        :param sources: The bindings the operator is evaluated under.
+        :param failing: The bindings of the other variables for which the condition was found not to hold.
+        :param holding: The bindings of the other variables for which the operator holds.
+        :return: One false result for every binding that is failing and not holding.
+        """
+
+        def key_of(bindings):
+            return tuple(sorted((k, v.id_) for k, v in bindings.items()))
+
+        reported = {key_of(bindings) for bindings in holding}
+        if not failing and not holding and self._other_variables_are_bound_in_(sources):
+            # the condition produced nothing at all for the one binding the operator was evaluated under
+            failing = [{}]
+        for bindings in failing:
+            key = key_of(bindings)
+            if key in reported:
+                continue
+            reported.add(key)
+            self._is_false_ = True
+            yield OperationResult({**sources, **bindings}, True, self)
+
     @property
     def variable(self):
         return self.left
@@ -1966,19 +2037,8 @@ class ForAll(QuantifiedConditional):
     """
     This operator is the universal conditional operator. It returns bindings that satisfy the condition for all the
     values of the quantified variable. It short circuits by ignoring the bindings that doesn't satisfy the condition.
+    When all the other variables of the condition are already bound it yields a false result instead of nothing.
     """
-
-    @cached_property
-    def condition_unique_variable_ids(self) -> List[int]:
-        # a predicate / symbolic function is a variable whose value is computed from its arguments: its value for one
-        # value of the universal variable must not be kept for the next one
-        return [
-            v.id_
-            for v in self.condition._unique_variables_.difference(
-                self.left._unique_variables_
-            )
-            if not v.value._should_be_instantiated_
-        ]
 
     def _evaluate__(
         self,
@@ -1989,16 +2049,21 @@ class ForAll(QuantifiedConditional):
         self._eval_parent_ = parent
 
         solution_set = None
+        rejected = []
 
         for var_val in self.variable._evaluate__(sources, parent=self):
             if solution_set is None:
-                solution_set = self.get_all_candidate_solutions(var_val.bindings)
+                solution_set, rejected = self.get_all_candidate_solutions(
+                    var_val.bindings
+                )
             else:
-                solution_set = [
-                    sol
-                    for sol in solution_set
-                    if self.evaluate_condition({**sol, **var_val.bindings})
-                ]
+                remaining = []
+                for sol in solution_set:
+                    if self.evaluate_condition({**sol, **var_val.bindings}):
+                        remaining.append(sol)
+                    else:
+                        rejected.append(sol)
+                solution_set = remaining
             if not solution_set:
                 solution_set = []
                 break
@@ -2008,23 +2073,33 @@ class ForAll(QuantifiedConditional):
             solution_set = [{}]
 
         # Yield the remaining bindings (non-universal) merged with the incoming sources
-        yield from [
-            OperationResult({**sources, **sol}, False, self) for sol in solution_set
-        ]
+        for sol in solution_set:
+            self._is_false_ = False
+            yield OperationResult({**sources, **sol}, False, self)
 
-    def get_all_candidate_solutions(self, sources: Dict[int, HashedValue]):
+        # the bindings of the other variables under which the condition fails for a value of the universal variable
+        yield from self._false_results_(sources, rejected, solution_set)
+
+    def get_all_candidate_solutions(
+        self, sources: Dict[int, HashedValue]
+    ) -> Tuple[List[Dict[int, HashedValue]], List[Dict[int, HashedValue]]]:
+        """
+        :param sources: The bindings with the first value of the universal variable.
+        :return: The bindings of the other variables that satisfy the condition under these bindings, and the ones
+         that do not.
+        """
         values_that_satisfy_condition = []
+        values_that_do_not = []
         # Evaluate the condition under this particular universal value
         for condition_val in self.condition._evaluate__(sources, parent=self):
+            condition_val_bindings = self._bindings_of_the_other_variables_(
+                condition_val
+            )
             if condition_val.is_false:
-                continue
-            condition_val_bindings = {
-                k: v
-                for k, v in condition_val.bindings.items()
-                if k in self.condition_unique_variable_ids
-            }
-            values_that_satisfy_condition.append(condition_val_bindings)
-        return values_that_satisfy_condition
+                values_that_do_not.append(condition_val_bindings)
+            else:
+                values_that_satisfy_condition.append(condition_val_bindings)
+        return values_that_satisfy_condition, values_that_do_not
 
     def evaluate_condition(self, sources: Dict[int, HashedValue]) -> bool:
         for condition_val in self.condition._evaluate__(sources, parent=self):
@@ -2051,11 +2126,19 @@ class Exists(QuantifiedConditional):
         sources = sources or {}
         self._eval_parent_ = parent
         seen_var_values = []
+        satisfied, unsatisfied = [], []
         for val in self.condition._evaluate__(sources, parent=self):
+            if val.is_false:
+                unsatisfied.append(self._bindings_of_the_other_variables_(val))
+                continue
+            satisfied.append(self._bindings_of_the_other_variables_(val))
             var_val = val[self.variable._id_]
-            if val.is_true and var_val.value not in seen_var_values:
+            if var_val.value not in seen_var_values:
                 seen_var_values.append(var_val.value)
+                self._is_false_ = False
                 yield OperationResult(val.bindings, False, self)
+        # the bindings of the other variables under which the condition holds for no value of the variable
+        yield from self._false_results_(sources, unsatisfied, satisfied)
 
     def _invert_(self):
         return ForAll(self.variable, self.condition._invert_())
